@@ -10,7 +10,7 @@ trap 'git -C /repo worktree remove --force "$wt" >/dev/null 2>&1' EXIT
 pkgdir=$(python3 -c "import json;print(json.load(open('$mdir/meta.json'))['demo_pkg_dir'])")
 run=$(python3 -c "import json;print(json.load(open('$mdir/meta.json'))['demo_run'])")
 run=${run#-run }
-cp "$mdir/demo_test.go" "$wt/$pkgdir/zz_seeded_demo_test.go"
+if [ -f "$mdir/demo_test.go" ]; then cp "$mdir/demo_test.go" "$wt/$pkgdir/zz_seeded_demo_test.go"; else cp "$mdir/demo_test.go.txt" "$wt/$pkgdir/zz_seeded_demo_test.go"; fi
 echo "== $prop/$name: demo WITHOUT change (expect pass)"
 ( cd "$wt" && go test -vet=off -count=1 -timeout 600s -run "$run" ./$pkgdir/ 2>&1 | tail -3 ); r0=${PIPESTATUS[0]}
 ( cd "$wt" && git apply "$mdir/patch.diff" ) || { echo "patch does not apply"; exit 2; }
